@@ -109,6 +109,35 @@ CHECKS["C11"] = dict(
     note=TB + "Go channels assumed FIFO; conn.Write reads the queued buffer atomically; explicit domain guard Val.Valid "
               "(outside it the Go code truncates); writerErr error path and Conn.Receive not covered.")
 
+CHECKS["C04"] = dict(
+    category="proof", design_ref="DESIGN.md section 2 / C04",
+    technique="Lean 4 theorem in a symbolic free-hash instance of the shared garbling definitions (explicit GF(2)-linear functional, induction over gates) + sliding-window offset search over complete real transcripts",
+    text=("Theorems C04_whole_circuit / C04_offset_not_in_span / C04_no_two_labels_of_a_wire: instantiating the SAME generic "
+          "garbling and protocol definitions that are byte-exactly tied to the Go code at a symbolic label algebra with a "
+          "free hash, for every WF circuit, inputs and permute-bit valuation there is a GF(2)-linear functional that is 1 on "
+          "the secret offset R and 0 on every label of the evaluator's view (all table rows, garbler input labels, OT-chosen "
+          "labels): R is not transmitted, no two transmitted values differ by R, no XOR-combination yields R. "
+          "C04_tweak_reuse_leaks proves (in any algebra) that reusing a tweak across AND gates sharing an input leaks R - "
+          "the pre-fix streaming mode (repaired by fix 956e0fd; a structural fact pins the single tweak counter). "
+          "C04_both_labels_leak: sha2pc's OutputHints (known finding). Oracle on the real code: every 16-byte window at "
+          "every byte offset of the complete garbler->evaluator stream of whole-circuit, streaming and sha2pc sessions."),
+    note=TB + "Symbolic model: no computational secrecy claim; stated for every hash model `code` separating x from x xor R; "
+              "OT ideal in the model (its own messages are only scanned by the oracle); streaming covered by the tweak-uniqueness "
+              "fact + whole-list theorem (instruction boundaries are not modelled separately).")
+
+CHECKS["C06"] = dict(
+    category="proof", design_ref="DESIGN.md section 2 / C06",
+    technique="Lean 4 theorems (lock-step induction over chunk and batch loops of both parties; arbitrary PRG streams, block cipher, abstract commutative group, abstract RSA key relation) + byte-exact model/implementation correspondence + implementation-side oracle over all five OT implementations",
+    text=("IKNP label form recv_i = sent_i xor b_i*Delta holds for every n and every sequence of calls on one instance, also "
+          "in malicious mode; createLabels is the bit-matrix transpose; the packed-bit form is characterised exactly; "
+          "COT/ROT deliver for every batch size, cipher and seed end to end over IKNP; Chou-Orlandi masks agree in every "
+          "commutative group; RSA OT recovers the blinding key. On every run the real IKNP/COT/ROT/MITCCRH are compared "
+          "byte for byte with the executed Lean model on deterministic tapes; the oracle checks receiver = chosen sender "
+          "label for RSA, CO (protocol, helpers), IKNP, COT, ROT in both adversary modes, shared/non-shared mode, repeated "
+          "batches, sizes 1..2049 biased to mod 8/64/128/512 boundaries."),
+    note=TB + "IKNP theorems relative to delivered base OTs; crypto/elliptic trusted (CO proved in an abstract group); RSA key "
+              "relation and PKCS#1 round trip are hypotheses; the malicious consistency check itself is C15.")
+
 NOT_YET = {}
 
 PROPS = [json.loads(l)["id"] for l in open(os.path.join(VERIF, "properties.jsonl"))]
